@@ -334,7 +334,7 @@ class PathEval(object):
             if not [s for s in succs if s is not None]:
                 continue     # noreturn (abort/assert): not a normal completion
             tk = blk.get("tk")
-            cond = f.nodes.get(blk.get("tc")) if blk.get("tc") is not None else None
+            cond = branch_cond(f, blk)
             ev = self.evaluator(env)
             nxt = []
             if tk == "SwitchStmt" and cond is not None:
